@@ -652,9 +652,10 @@ struct Hist {
     } else if (w < 95) {
       s = make_op(g, OP_M_ALIAS, a, b, -1); s.op.c = (uint8_t)rng.below(AL__N);
     } else if (w < 96) {
-      int r = rng.below(3);
+      int r = rng.below(4);
       if (r == 0) s = make_op(g, OP_M_SETIDENTITY, a, 0, -1);
       else if (r == 1) { s = make_op(g, OP_M_SETTERS, a, b, -1); s.op.c = (uint8_t)rng.below(3); }      // quat() / translation() setters
+      else if (r == 3) { s = make_op(g, OP_CTOR, a, 0, dst); s.op.c = (uint8_t)rng.below(20); }        // rebuilt through a component constructor
       else { s = make_op(g, OP_T_SCALE, ts, 0, ts); s.op.s = round_scalar(vt, rng.chance(0.5) ? rng.uniform(-3, 3) : rng.logmag(1e-9, 1e3)); }
     } else if (w < 97 && rng.chance(0.5)) {
       if (rng.chance(0.5)) {
